@@ -42,6 +42,7 @@ type runner struct {
 	coldRuns int64
 	coldMu   sync.Mutex
 	sweeps   map[string]*sweepPrep
+	buildMu  sync.Mutex
 }
 
 type coldRef struct {
@@ -184,7 +185,11 @@ func (r *runner) runPlanX(v *variant, prop string, seed int64, index int, tier s
 	if given == nil && prop == "C14" {
 		// sweeps need the list of types that die even alone (filled by the driver)
 		if gp := r.genPlan(v, prop, seed, index, tier); gp != nil && gp.Mode == "typesweep" {
-			gp.Sweep.Exclude = r.sweepExcluded(v)
+			if len(gp.Sweep.OnlyName) > 0 {
+				gp.Sweep.OnlyName = r.withoutExcludedNames(v, gp.Sweep)
+			} else {
+				gp.Sweep.Exclude = r.sweepExcluded(v)
+			}
 			given = gp
 		}
 	}
@@ -286,7 +291,11 @@ func (r *runner) runPlanX(v *variant, prop string, seed int64, index int, tier s
 		r.isolation(v, oc)
 	}
 	if oc.Plan != nil && oc.Plan.Mode == "typesweep" {
-		r.sweepIsolation(v, oc)
+		if sw := oc.Plan.Sweep; sw != nil && len(sw.OnlyName) > 0 {
+			r.crossPopulation(v, oc, planFile)
+		} else {
+			r.sweepIsolation(v, oc)
+		}
 	}
 	nt := false
 	for _, n := range oc.Res.Faults {
@@ -490,6 +499,7 @@ type sweepPrep struct {
 	once     sync.Once
 	excluded []int
 	count    int
+	names    []string
 }
 
 func (r *runner) prep(v *variant) *sweepPrep {
@@ -514,10 +524,12 @@ func (r *runner) sweepExcluded(v *variant) []int {
 	sp := r.prep(v)
 	sp.once.Do(func() {
 		var d struct {
-			SweepTypes int `json:"sweep_types"`
+			SweepTypes int      `json:"sweep_types"`
+			Names      []string `json:"sweep_names"`
 		}
-		json.Unmarshal([]byte(rawStdout(v, "describe")), &d)
+		json.Unmarshal([]byte(rawStdout(v, "describe", "-prop", "C14")), &d)
 		sp.count = d.SweepTypes
+		sp.names = d.Names
 		var mu sync.Mutex
 		var wg sync.WaitGroup
 		sem := make(chan struct{}, 16)
@@ -543,10 +555,45 @@ func (r *runner) sweepExcluded(v *variant) []int {
 	return sp.excluded
 }
 
+// withoutExcludedNames: a cross-population batch without the types that die
+// even alone in one of the two binaries.
+func (r *runner) withoutExcludedNames(v *variant, sw *plan.Sweep) []string {
+	bad := map[string]bool{}
+	mark := func(w *variant) {
+		ex := r.sweepExcluded(w)
+		sp := r.prep(w)
+		for _, i := range ex {
+			if i < len(sp.names) {
+				bad[sp.names[i]] = true
+			}
+		}
+	}
+	mark(v)
+	if sw.Cross != "" && sw.Cross != v.Name {
+		r.buildMu.Lock()
+		vb, err := r.b.build(sw.Cross)
+		r.buildMu.Unlock()
+		if err == nil {
+			mark(vb)
+		}
+	}
+	var out []string
+	for _, n := range sw.OnlyName {
+		if !bad[n] {
+			out = append(out, n)
+		}
+	}
+	return out
+}
+
 func (r *runner) coldSweep(v *variant, key string, p *plan.Plan) *coldRef {
 	mkey := v.Hash + "|sweep|" + key
 	if strings.HasPrefix(key, "r") && p != nil {
-		mkey += fmt.Sprintf("|%d|%d", p.Sweep.Seed, p.Sweep.Reflect)
+		if p.Sweep.Alias32 {
+			mkey += fmt.Sprintf("|alias|%d|%d", (p.Sweep.Seed^0xABCD)%4, p.Sweep.Reflect)
+		} else {
+			mkey += fmt.Sprintf("|%d|%d", p.Sweep.Seed, p.Sweep.Reflect)
+		}
 	}
 	r.memoMu.Lock()
 	if ref, ok := r.memo[mkey]; ok {
@@ -565,6 +612,7 @@ func (r *runner) coldSweep(v *variant, key string, p *plan.Plan) *coldRef {
 		q.Sweep.Only = []int{-1}
 		q.Sweep.Seed = p.Sweep.Seed
 		q.Sweep.Reflect = p.Sweep.Reflect
+		q.Sweep.Alias32 = p.Sweep.Alias32
 	}
 	f := r.tmpName("coldsweep") + ".json"
 	data, _ := json.Marshal(q)
@@ -601,6 +649,48 @@ func (r *runner) sweepIsolation(v *variant, oc *outcome) {
 		if d := diffObs(ref.Obs, oc.Res.Obs[k]); d != "" {
 			oc.Viols = append(oc.Viols, plan.Violation{Oracle: "isolation", Where: fmt.Sprintf("type %s (%s)", k, first(oc.Res.Obs[k])), Sig: "isolation|sweep",
 				Detail: d})
+			if len(oc.Viols) > 6 {
+				return
+			}
+		}
+	}
+}
+
+// crossPopulation runs the same batch of types in the binary of the variant
+// named by Sweep.Cross and compares what was observed per type.
+func (r *runner) crossPopulation(v *variant, oc *outcome, planFile string) {
+	sw := oc.Plan.Sweep
+	if sw.Cross == "" || sw.Cross == v.Name {
+		return
+	}
+	r.buildMu.Lock()
+	vb, err := r.b.build(sw.Cross)
+	r.buildMu.Unlock()
+	if err != nil {
+		oc.Infra = "cross variant " + sw.Cross + ": " + err.Error()
+		return
+	}
+	info := r.exec(vb, r.timeout, "exec", "-plan", planFile, "-noplan", "-variant", vb.Name)
+	if info.Out == nil {
+		sum := fatalSummary(info.Stderr)
+		oc.Viols = append(oc.Viols, plan.Violation{Oracle: "fatal", Where: "worker of variant " + vb.Name + " died: " + fmt.Sprint(info.ExitErr), Sig: "fatal|" + fatalClass(sum),
+			Detail: addrRe.ReplaceAllString(sum, "0xADDR")})
+		return
+	}
+	other := info.Out.Result.Obs
+	keys := make([]string, 0, len(oc.Res.Obs))
+	for k := range oc.Res.Obs {
+		keys = append(keys, k)
+	}
+	sort.Strings(keys)
+	for _, k := range keys {
+		ob, ok := other[k]
+		if !ok {
+			continue
+		}
+		if d := diffObs(oc.Res.Obs[k], ob); d != "" {
+			oc.Viols = append(oc.Viols, plan.Violation{Oracle: "population", Where: fmt.Sprintf("type %s in the binaries of %s and %s", strings.TrimPrefix(k, "n:"), v.Name, vb.Name), Sig: "population|sweep",
+				Detail: "first line: binary of " + v.Name + ", second: binary of " + vb.Name + "\n" + d})
 			if len(oc.Viols) > 6 {
 				return
 			}
